@@ -78,9 +78,9 @@ Section Ids.
     end.
 
   Lemma ev_slice l : ev (VSlice l) = 91 :: items l ++ [93].
-  Proof. cbn [ev]. f_equal. f_equal. induction l as [|v tl IH]; cbn [items]; [reflexivity|]. destruct tl; [reflexivity|]. rewrite <- IH. reflexivity. Qed.
+  Proof. reflexivity. Qed.
   Lemma ev_map m : ev (VMap m) = 123 :: entries m ++ [125].
-  Proof. cbn [ev]. f_equal. f_equal. induction m as [|[k v] tl IH]; cbn [entries]; [reflexivity|]. destruct tl; [reflexivity|]. rewrite <- IH. reflexivity. Qed.
+  Proof. reflexivity. Qed.
 
   (* nested induction principle *)
   Section ValInd.
@@ -101,9 +101,7 @@ Section Ids.
   Definition tagc (c : N) : Prop := c = 115 \/ c = 105 \/ c = 100 \/ c = 98 \/ c = 120 \/ c = 101 \/ c = 91 \/ c = 123.
   Lemma ev_head v : exists c t, ev v = c :: t /\ tagc c.
   Proof.
-    destruct v; try (eexists _, _; split; [reflexivity|unfold tagc; auto 10]).
-    - rewrite ev_slice. eexists _, _; split; [reflexivity|unfold tagc; auto 10].
-    - rewrite ev_map. eexists _, _; split; [reflexivity|unfold tagc; auto 10].
+    destruct v; eexists _, _; (split; [reflexivity|unfold tagc; auto 10]).
   Qed.
 
   Definition UD (v : val) : Prop :=
@@ -134,7 +132,7 @@ Section Ids.
         * injection Hrest as ->. split; reflexivity.
         * discriminate.
         * discriminate.
-        * injection Hrest as Hrest. destruct (IH Htl _ _ _ Hrest) as [-> ->]. split; reflexivity.
+        * injection Hrest as Hrest. destruct (IH Htl (b :: tl0') r r' Hrest) as [-> ->]. split; reflexivity.
   Qed.
 
   Lemma entries_UD m : Forall (fun kv => UD (snd kv)) m -> forall m' r r',
@@ -155,25 +153,25 @@ Section Ids.
         * injection Hrest as ->. split; reflexivity.
         * discriminate.
         * discriminate.
-        * injection Hrest as Hrest. destruct (IH Htl _ _ _ Hrest) as [-> ->]. split; reflexivity.
+        * injection Hrest as Hrest. destruct (IH Htl (b :: tl0') r r' Hrest) as [-> ->]. split; reflexivity.
   Qed.
 
   (* ValueID is uniquely decodable in context, for every (arbitrarily nested) value *)
   Theorem value_id_UD : forall v, UD v.
   Proof.
-    induction v using val_ind'; intros v' r r' HT HT' H.
-    - destruct v'; heads H. injection H as H. apply UD_q in H. destruct H as [-> ->]. split; reflexivity.
-    - destruct v'; heads H. injection H as H. apply UD_i in H; try assumption. destruct H as [-> ->]. split; reflexivity.
-    - destruct v'; heads H. injection H as H. apply UD_d in H; try assumption. destruct H as [-> ->]. split; reflexivity.
-    - destruct v'; heads H. injection H as H. apply UD_b in H; try assumption. destruct H as [-> ->]. split; reflexivity.
-    - destruct v'; heads H. injection H as H. apply UD_x in H; try assumption. destruct H as [-> ->]. split; reflexivity.
-    - destruct v'; heads H. injection H as ->. split; reflexivity.
-    - rewrite ev_slice in H. destruct v'; try rewrite ev_slice in H; try rewrite ev_map in H; cbn [ev app] in H; try (injection H; intros; lia); try discriminate.
-      injection H as H. rewrite <- !app_assoc in H. cbn [app] in H.
-      destruct (items_UD l H0 _ _ _ H) as [-> ->]. split; reflexivity.
-    - rewrite ev_map in H. destruct v'; try rewrite ev_slice in H; try rewrite ev_map in H; cbn [ev app] in H; try (injection H; intros; lia); try discriminate.
-      injection H as H. rewrite <- !app_assoc in H. cbn [app] in H.
-      destruct (entries_UD m H0 _ _ _ H) as [-> ->]. split; reflexivity.
+    induction v as [s|z|f|b|x| |l IHl|m IHm] using val_ind'; intros v' r r' HT HT' Heq.
+    - destruct v'; heads Heq. injection Heq as Heq. apply UD_q in Heq. destruct Heq as [-> ->]. split; reflexivity.
+    - destruct v'; heads Heq. injection Heq as Heq. apply UD_i in Heq; try assumption. destruct Heq as [-> ->]. split; reflexivity.
+    - destruct v'; heads Heq. injection Heq as Heq. apply UD_d in Heq; try assumption. destruct Heq as [-> ->]. split; reflexivity.
+    - destruct v'; heads Heq. injection Heq as Heq. apply UD_b in Heq; try assumption. destruct Heq as [-> ->]. split; reflexivity.
+    - destruct v'; heads Heq. injection Heq as Heq. apply UD_x in Heq; try assumption. destruct Heq as [-> ->]. split; reflexivity.
+    - destruct v'; heads Heq. injection Heq as ->. split; reflexivity.
+    - rewrite ev_slice in Heq. destruct v'; try rewrite ev_slice in Heq; try rewrite ev_map in Heq; cbn [ev app] in Heq; try (injection Heq; intros; lia); try discriminate.
+      injection Heq as Heq. rewrite <- !app_assoc in Heq. cbn [app] in Heq.
+      destruct (items_UD l IHl _ _ _ Heq) as [-> ->]. split; reflexivity.
+    - rewrite ev_map in Heq. destruct v'; try rewrite ev_slice in Heq; try rewrite ev_map in Heq; cbn [ev app] in Heq; try (injection Heq; intros; lia); try discriminate.
+      injection Heq as Heq. rewrite <- !app_assoc in Heq. cbn [app] in Heq.
+      destruct (entries_UD m IHm _ _ _ Heq) as [-> ->]. split; reflexivity.
   Qed.
 
   (* AttributesId(attrs) = ValueID of the map of the (stably sorted) entries; [canon] is that sorting *)
@@ -190,13 +188,18 @@ Section Ids.
   Definition resource_id (attrs : list (list N * val)) (dropped : N) (url : list N) : list N :=
     attrs_id attrs ++ 124 :: fu dropped ++ 124 :: url.
 
+  Lemma cons_inv (c : N) (a b : list N) : c :: a = c :: b -> a = b.
+  Proof. intros H. injection H as H. exact H. Qed.
+  Lemma T124 r : T (124 :: r).
+  Proof. cbn. unfold term. auto. Qed.
+
   Theorem resource_id_injective a d u a' d' u' :
     resource_id a d u = resource_id a' d' u' -> canon a = canon a' /\ d = d' /\ u = u'.
   Proof.
     unfold resource_id. intros H.
-    apply attrs_id_UD in H; [|cbn; unfold term; auto|cbn; unfold term; auto]. destruct H as [Ha H].
-    injection H as H. apply UD_u in H; [|cbn; unfold term; auto|cbn; unfold term; auto]. destruct H as [Hd H].
-    injection H as H. repeat split; assumption.
+    apply attrs_id_UD in H; [|apply T124|apply T124]. destruct H as [Ha H].
+    apply cons_inv in H. apply UD_u in H; [|apply T124|apply T124]. destruct H as [Hd H].
+    apply cons_inv in H. repeat split; assumption.
   Qed.
 
   (* ScopeID = name:"…"|version:"…"|AttributesId|dropped|schemaUrl *)
@@ -208,13 +211,13 @@ Section Ids.
   Theorem scope_id_injective n v a d u n' v' a' d' u' :
     scope_id n v a d u = scope_id n' v' a' d' u' -> n = n' /\ v = v' /\ canon a = canon a' /\ d = d' /\ u = u'.
   Proof.
-    unfold scope_id, lit_name, lit_version. cbn [app]. intros H.
-    injection H as H. apply UD_q in H. destruct H as [Hn H].
-    injection H as H. apply UD_q in H. destruct H as [Hv H].
-    injection H as H.
-    apply attrs_id_UD in H; [|cbn; unfold term; auto|cbn; unfold term; auto]. destruct H as [Ha H].
-    injection H as H. apply UD_u in H; [|cbn; unfold term; auto|cbn; unfold term; auto]. destruct H as [Hd H].
-    injection H as H. repeat split; assumption.
+    unfold scope_id. intros H.
+    apply app_inv_head in H. apply UD_q in H. destruct H as [Hn H].
+    apply app_inv_head in H. apply UD_q in H. destruct H as [Hv H].
+    apply cons_inv in H.
+    apply attrs_id_UD in H; [|apply T124|apply T124]. destruct H as [Ha H].
+    apply cons_inv in H. apply UD_u in H; [|apply T124|apply T124]. destruct H as [Hd H].
+    apply cons_inv in H. repeat split; assumption.
   Qed.
 End Ids.
 
